@@ -833,7 +833,9 @@ class TimedStore(typing.Generic[KT]):
             )
             return
 
-        asyncio.get_event_loop().call_soon(callback, entry, address)
+        # notify immediately, like stop(): a deferred notification could be overtaken
+        # by a new offer/subscribe for the same entry handled in between
+        callback(entry, address)
 
     def entries(self) -> typing.Iterator[KT]:
         return itertools.chain.from_iterable(x.keys() for x in self.store.values())
